@@ -12,25 +12,25 @@ Open Scope Z_scope.
 
 Definition instr_at (p : list instr) (pc : Z) (i : instr) : Prop := In i p /\ i_off i = pc.
 
-(** Path semantics: [reachable_depth v E p pc d] -- some execution path from the entry (offset 0, empty operand
-    stack) arrives at offset [pc] with [d] values on the operand stack.  One step follows any outgoing edge of
+(** Path semantics: [reachable_depth v E p pc d] -- some execution path from the entry (offset 0, operand stack of
+    depth [d0] = co_entry: empty, except for 3.10 generators) arrives at offset [pc] with [d] values on the operand stack.  One step follows any outgoing edge of
     the instruction at [pc] (fall-through, jump taken, or leaving the code object at a terminal instruction:
     [exit_pc]) and adds the interpreter's stack effect for that edge.  Conditions are not interpreted: every
     branch of every conditional jump is a path. *)
-Inductive reachable_depth (v : pyver) (E : effects) (p : list instr) : Z -> Z -> Prop :=
-| rd_entry : reachable_depth v E p 0 0
+Inductive reachable_depth (v : pyver) (E : effects) (d0 : Z) (p : list instr) : Z -> Z -> Prop :=
+| rd_entry : reachable_depth v E d0 p 0 d0
 | rd_step : forall pc d i es t e,
-    reachable_depth v E p pc d ->
+    reachable_depth v E d0 p pc d ->
     instr_at p pc i ->
     edges v E i = Some es ->
     In (t, e) es ->
-    reachable_depth v E p t (d + e).
+    reachable_depth v E d0 p t (d + e).
 
 (** clause 1: the declared stack size bounds the depth on every path (and the depth never goes negative);
     the interpreter's stack effect is defined for every instruction a path reaches *)
-Definition depth_bounded (v : pyver) (E : effects) (S : Z) (p : list instr) : Prop :=
-  (forall pc d, reachable_depth v E p pc d -> 0 <= d <= S) /\
-  (forall pc d i, reachable_depth v E p pc d -> instr_at p pc i -> exists es, edges v E i = Some es).
+Definition depth_bounded (v : pyver) (E : effects) (S : Z) (d0 : Z) (p : list instr) : Prop :=
+  (forall pc d, reachable_depth v E d0 p pc d -> 0 <= d <= S) /\
+  (forall pc d i, reachable_depth v E d0 p pc d -> instr_at p pc i -> exists es, edges v E i = Some es).
 
 (** clause 2: every jump target and every fall-through successor, of every instruction (reachable or not), is
     the first unit of an instruction inside the code *)
@@ -63,13 +63,13 @@ Definition lines_in_file (v : pyver) (c : codeobj) (p : list instr) : Prop :=
 (** the property for one code object *)
 Definition structurally_valid_nolines (v : pyver) (E : effects) (c : codeobj) : Prop :=
   exists p, decode v (co_code c) = Some p /\ p <> [] /\ co_exclen c = 0 /\
-    (co_chkdepth c = true -> depth_bounded v E (co_stacksize c) p) /\
+    (co_chkdepth c = true -> depth_bounded v E (co_stacksize c) (co_entry c) p) /\
     jumps_land v (Zlen (co_code c)) p /\
     indices_in_range v c p.
 
 Definition structurally_valid (v : pyver) (E : effects) (c : codeobj) : Prop :=
   exists p, decode v (co_code c) = Some p /\ p <> [] /\ co_exclen c = 0 /\
-    (co_chkdepth c = true -> depth_bounded v E (co_stacksize c) p) /\
+    (co_chkdepth c = true -> depth_bounded v E (co_stacksize c) (co_entry c) p) /\
     jumps_land v (Zlen (co_code c)) p /\
     indices_in_range v c p /\
     lines_in_file v c p.
